@@ -19,22 +19,22 @@ def recorded (w : World) (i : Nat) : Nat := w.feedback.count i + w.ignored.count
 
 theorem failWith_id (o : FbObj) (e : Exc) : (failWith o e).id = o.id := rfl
 
-theorem evalHandle_id (O : Oracle) (F : String) (avail : List String) (o : FbObj) : (evalHandle O F avail o).id = o.id := by
+theorem evalHandle_id (O : Oracle) (F : String) (avail : List String) (s : Store) (o : FbObj) : (evalHandle O F avail s o).id = o.id := by
   unfold evalHandle
   dsimp only
   repeat' split
   all_goals rfl
 
-theorem evalHandle_parent (O : Oracle) (F : String) (avail : List String) (o : FbObj) :
-    (evalHandle O F avail o).parent = o.parent := by
+theorem evalHandle_parent (O : Oracle) (F : String) (avail : List String) (s : Store) (o : FbObj) :
+    (evalHandle O F avail s o).parent = o.parent := by
   unfold evalHandle
   dsimp only
   repeat' split
   all_goals rfl
 
 /-- What `_handle_condition` leaves behind is one of exactly three shapes. -/
-theorem evalHandle_cases (O : Oracle) (F : String) (avail : List String) (o : FbObj) :
-    let r := evalHandle O F avail o
+theorem evalHandle_cases (O : Oracle) (F : String) (avail : List String) (s : Store) (o : FbObj) :
+    let r := evalHandle O F avail s o
     (r.met = true ∧ r.status = .active ∧ r.exc = none ∧ evalCond o = .ok true) ∨
     (r.met = false ∧ r.status = .inactive ∧ r.exc = none ∧ evalCond o = .ok false) ∨
     (r.met = false ∧ r.status = .error ∧ ∃ e, r.exc = some e) := by
@@ -69,14 +69,14 @@ theorem record_lists (w : World) (o : FbObj) :
 theorem handle_recorded (O : Oracle) (w : World) (o : FbObj) (i : Nat) :
     recorded (handle O w o).1 i = recorded w i + (if i = o.id then 1 else 0) := by
   unfold handle recorded
-  obtain ⟨hf, hi, _⟩ := record_lists w (evalHandle O w.fmtId w.avail o)
+  obtain ⟨hf, hi, _⟩ := record_lists w (evalHandle O w.fmtId w.avail w.store o)
   dsimp only
   rw [hf, hi, evalHandle_id]
   by_cases h : i = o.id
   · subst h
-    cases (evalHandle O w.fmtId w.avail o).met <;> simp [List.count_append] <;> omega
+    cases (evalHandle O w.fmtId w.avail w.store o).met <;> simp [List.count_append] <;> omega
   · have h' : ¬ (o.id = i) := fun e => h e.symm
-    cases (evalHandle O w.fmtId w.avail o).met <;> simp [List.count_append, h, h']
+    cases (evalHandle O w.fmtId w.avail w.store o).met <;> simp [List.count_append, h, h']
 
 theorem initObj_id (w : World) (sp : FbSpec) : (initObj w sp).id = w.nextId := rfl
 
@@ -95,7 +95,7 @@ theorem c20_recorded_exactly_once (O : Oracle) (w : World) (sp : FbSpec) (hw : W
   unfold construct
   simp only [hd, Bool.false_eq_true, if_false]
   have hid : (handle O { w with nextId := w.nextId + 1 } (initObj w sp)).2.obj.id = w.nextId := by
-    unfold handle; exact evalHandle_id _ _ _
+    unfold handle; exact evalHandle_id _ _ _ _ _
   refine ⟨hid, ?_, ?_⟩
   · rw [hid, handle_recorded]
     have := fresh_not_recorded w hw
@@ -125,19 +125,19 @@ theorem construct_ok (O : Oracle) (w : World) (sp : FbSpec) (hw : WorldOk w) : W
   split
   · intro i hi; exact Nat.lt_succ_of_lt (hw i hi)
   · intro i hi
-    obtain ⟨hf, hg, hn⟩ := record_lists { w with nextId := w.nextId + 1 } (evalHandle O w.fmtId w.avail (initObj w sp))
+    obtain ⟨hf, hg, hn⟩ := record_lists { w with nextId := w.nextId + 1 } (evalHandle O w.fmtId w.avail w.store (initObj w sp))
     unfold handle at hi ⊢
     dsimp only at hi ⊢
     rw [hn]
     rw [hf, hg, evalHandle_id] at hi
     show i < w.nextId + 1
-    by_cases hm : (evalHandle O w.fmtId w.avail (initObj w sp)).met = true
+    by_cases hm : (evalHandle O w.fmtId w.avail w.store (initObj w sp)).met = true
     · simp only [hm, if_true, List.mem_append, List.mem_singleton, initObj_id] at hi
       rcases hi with (hi | hi) | hi
       · exact Nat.lt_succ_of_lt (hw i (Or.inl hi))
       · omega
       · exact Nat.lt_succ_of_lt (hw i (Or.inr hi))
-    · have hm' : (evalHandle O w.fmtId w.avail (initObj w sp)).met = false := by simpa using hm
+    · have hm' : (evalHandle O w.fmtId w.avail w.store (initObj w sp)).met = false := by simpa using hm
       simp only [hm', Bool.false_eq_true, if_false, List.mem_append, List.mem_singleton, initObj_id] at hi
       rcases hi with hi | hi | hi
       · exact Nat.lt_succ_of_lt (hw i (Or.inl hi))
@@ -192,11 +192,11 @@ theorem c20_right_list_iff_condition (O : Oracle) (w : World) (sp : FbSpec) (hw 
   simp only [hd, Bool.false_eq_true, if_false]
   unfold handle
   dsimp only
-  obtain ⟨hf, hg, _⟩ := record_lists { w with nextId := w.nextId + 1 } (evalHandle O w.fmtId w.avail (initObj w sp))
+  obtain ⟨hf, hg, _⟩ := record_lists { w with nextId := w.nextId + 1 } (evalHandle O w.fmtId w.avail w.store (initObj w sp))
   rw [hf, hg, evalHandle_id, initObj_id]
   have h1 : w.nextId ∉ w.feedback := fun hm => Nat.lt_irrefl _ (hw _ (Or.inl hm))
   have h2 : w.nextId ∉ w.ignored := fun hm => Nat.lt_irrefl _ (hw _ (Or.inr hm))
-  cases (evalHandle O w.fmtId w.avail (initObj w sp)).met <;> simp [h1, h2]
+  cases (evalHandle O w.fmtId w.avail w.store (initObj w sp)).met <;> simp [h1, h2]
 
 /-- `evalCond` on the freshly initialised object is the condition outcome of the call. -/
 theorem evalCond_init (w : World) (sp : FbSpec) :
@@ -217,7 +217,7 @@ theorem c20_bool_is_outcome (O : Oracle) (w : World) (sp : FbSpec) (hd : sp.dela
   unfold handle
   dsimp only
   have hc := evalCond_init w sp
-  rcases evalHandle_cases O w.fmtId w.avail (initObj w sp) with ⟨hm, _, he, hcond⟩ | ⟨hm, _, he, hcond⟩ | ⟨hm, _, e, he⟩
+  rcases evalHandle_cases O w.fmtId w.avail w.store (initObj w sp) with ⟨hm, _, he, hcond⟩ | ⟨hm, _, he, hcond⟩ | ⟨hm, _, e, he⟩
   · rw [hm, he]
     rw [hcond] at hc
     have : condHeld sp = true := by
@@ -247,7 +247,7 @@ theorem c20_error_path (O : Oracle) (w : World) (sp : FbSpec) (hw : WorldOk w) (
   unfold handle
   dsimp only
   intro hl
-  rcases evalHandle_cases O w.fmtId w.avail (initObj w sp) with ⟨hm, hs, he, _⟩ | ⟨hm, hs, he, _⟩ | ⟨hm, hs, e, he⟩
+  rcases evalHandle_cases O w.fmtId w.avail w.store (initObj w sp) with ⟨hm, hs, he, _⟩ | ⟨hm, hs, he, _⟩ | ⟨hm, hs, e, he⟩
   · refine ⟨fun e h => (by rw [he] at h; cases h), fun _ => Or.inl ⟨hs, hm⟩⟩
   · refine ⟨fun e h => (by rw [he] at h; cases h), fun _ => Or.inr ⟨hs, hm⟩⟩
   · refine ⟨fun e' h => ⟨hs, hm, h, hl.2.mpr hm, fun hf => ?_⟩, fun h => (by rw [he] at h; cases h)⟩
@@ -270,7 +270,8 @@ theorem c20_condition_raises (O : Oracle) (w : World) (sp : FbSpec) (hd : sp.del
     cannot raise) takes the error path with that exception. -/
 theorem c20_message_raises (O : Oracle) (w : World) (sp : FbSpec) (hd : sp.delay = false) (e : Exc)
     (hheld : condHeld sp = true) (hm : sp.msg = .raises e)
-    (hj : (initObj w sp).justificationTemplate = none ∨ (initObj w sp).justification.isSome = true) :
+    (hj : (initObj w sp).justificationTemplate w.store = none ∨
+          ((initObj w sp).justification w.store).isSome = true) :
     (construct O w sp).2.raised = some e := by
   unfold construct
   simp only [hd, Bool.false_eq_true, if_false]
@@ -285,10 +286,15 @@ theorem c20_message_raises (O : Oracle) (w : World) (sp : FbSpec) (hd : sp.delay
     · unfold condHeld at hheld; rw [hs] at hheld; cases hheld
   rw [hc]
   dsimp only
-  have hjust : ∃ j, getJustification O w.fmtId w.avail { initObj w sp with exc := none, met := true } true = .ok j := by
+  have hjust : ∃ j, getJustification O w.fmtId w.avail w.store
+      { initObj w sp with exc := none, met := true } true = .ok j := by
     unfold getJustification
-    dsimp only
-    cases hjj : (initObj w sp).justification with
+    have h1 : FbObj.justification w.store { initObj w sp with exc := none, met := true }
+        = (initObj w sp).justification w.store := rfl
+    have h2 : FbObj.justificationTemplate w.store { initObj w sp with exc := none, met := true }
+        = (initObj w sp).justificationTemplate w.store := rfl
+    rw [h1, h2]
+    cases hjj : (initObj w sp).justification w.store with
     | some j => exact ⟨_, rfl⟩
     | none =>
       rcases hj with hj | hj
@@ -297,7 +303,8 @@ theorem c20_message_raises (O : Oracle) (w : World) (sp : FbSpec) (hd : sp.delay
   obtain ⟨j, hj'⟩ := hjust
   rw [hj']
   dsimp only
-  have : getMessage O w.fmtId w.avail { initObj w sp with exc := none, met := true, justification := j } = .error e := by
+  have : getMessage O w.fmtId w.avail w.store
+      { initObj w sp with exc := none, met := true, justificationI := some j } = .error e := by
     unfold getMessage
     show (match sp.msg with | .default => _ | .returns m => _ | .raises e => _) = _
     rw [hm]
@@ -310,16 +317,23 @@ theorem c20_message_raises (O : Oracle) (w : World) (sp : FbSpec) (hd : sp.delay
 theorem defaultFeedbackMessage_isSome : defaultFeedbackMessage.isSome = true := by decide
 
 /-- `getMessage` only reads these attributes. -/
-theorem getMessage_congr (O : Oracle) (F : String) (avail : List String) (o o' : FbObj)
-    (h1 : o'.message = o.message) (h2 : o'.messageTemplate = o.messageTemplate) (h3 : o'.fields = o.fields)
-    (h4 : o'.msg = o.msg) : getMessage O F avail o' = getMessage O F avail o := by
-  unfold getMessage defaultMessage
-  rw [h1, h2, h3, h4]
+theorem getMessage_congr (O : Oracle) (F : String) (avail : List String) (s : Store) (o o' : FbObj)
+    (h0 : o'.cls = o.cls) (h1 : o'.messageI = o.messageI) (h2 : o'.messageTemplateI = o.messageTemplateI)
+    (h3 : o'.fields = o.fields) (h4 : o'.msg = o.msg) : getMessage O F avail s o' = getMessage O F avail s o := by
+  unfold getMessage defaultMessage FbObj.message FbObj.messageTemplate
+  rw [h0, h1, h2, h3, h4]
+
+theorem getElseMessage_congr (O : Oracle) (F : String) (avail : List String) (s : Store) (o o' : FbObj)
+    (h0 : o'.cls = o.cls) (h1 : o'.elseMessageI = o.elseMessageI)
+    (h2 : o'.elseMessageTemplateI = o.elseMessageTemplateI) (h3 : o'.fields = o.fields) :
+    getElseMessage O F avail s o' = getElseMessage O F avail s o := by
+  unfold getElseMessage FbObj.elseMessage FbObj.elseMessageTemplate
+  rw [h0, h1, h2, h3]
 
 /-- What the message of a triggered feedback is, in terms of the object `__init__` set up. -/
 theorem triggered_message (O : Oracle) (w : World) (sp : FbSpec) (hd : sp.delay = false)
     (hmet : (construct O w sp).2.obj.met = true) :
-    getMessage O w.fmtId w.avail (initObj w sp) = .ok (construct O w sp).2.obj.message := by
+    getMessage O w.fmtId w.avail w.store (initObj w sp) = .ok ((construct O w sp).2.obj.message w.store) := by
   revert hmet
   unfold construct
   simp only [hd, Bool.false_eq_true, if_false]
@@ -339,8 +353,8 @@ theorem triggered_message (O : Oracle) (w : World) (sp : FbSpec) (hd : sp.delay 
         · intro h; cases h
       | true =>
         simp only [if_true]
-        have hcg := getMessage_congr O w.fmtId w.avail (initObj w sp)
-          { initObj w sp with exc := none, met := true, justification := j } rfl rfl rfl rfl
+        have hcg := getMessage_congr O w.fmtId w.avail w.store (initObj w sp)
+          { initObj w sp with exc := none, met := true, justificationI := some j } rfl rfl rfl rfl rfl
         rw [hcg]
         split
         · intro h; cases h
@@ -350,10 +364,11 @@ theorem triggered_message (O : Oracle) (w : World) (sp : FbSpec) (hd : sp.delay 
     instructor-written `_get_message` itself returns `None`. -/
 theorem c20_triggered_has_message (O : Oracle) (w : World) (sp : FbSpec) (hd : sp.delay = false)
     (hcustom : sp.msg ≠ .returns none)
-    (hmet : (construct O w sp).2.obj.met = true) : (construct O w sp).2.obj.message.isSome = true := by
+    (hmet : (construct O w sp).2.obj.met = true) :
+    ((construct O w sp).2.obj.message w.store).isSome = true := by
   have h := triggered_message O w sp hd hmet
   revert h
-  generalize (construct O w sp).2.obj.message = m
+  generalize (construct O w sp).2.obj.message w.store = m
   unfold getMessage defaultMessage
   have hmsg : (initObj w sp).msg = sp.msg := rfl
   rw [hmsg]
@@ -374,25 +389,31 @@ theorem c20_triggered_has_message (O : Oracle) (w : World) (sp : FbSpec) (hd : s
         · intro h; cases h
       · intro h; injection h with h; subst h; exact defaultFeedbackMessage_isSome
 
+theorem init_message (w : World) (sp : FbSpec) :
+    (initObj w sp).message w.store = (sp.message <|> classStr w.store sp.cls "message") := by
+  unfold FbObj.message instOr initObj
+  cases sp.message <;> rfl
+
+theorem init_messageTemplate (w : World) (sp : FbSpec) :
+    (initObj w sp).messageTemplate w.store = (sp.messageTemplate <|> classTmpl w.store sp.cls "message_template") := rfl
+
 /-- **Message derivation**: explicit message (keyword, else class attribute) > template rendered over
     the fields through the formatter dispatch > the default constant. -/
 theorem c20_message_derivation (O : Oracle) (w : World) (sp : FbSpec) (hd : sp.delay = false)
     (hdef : sp.msg = .default) (hmet : (construct O w sp).2.obj.met = true) :
     let explicit := sp.message <|> classStr w.store sp.cls "message"
     let template := sp.messageTemplate <|> classTmpl w.store sp.cls "message_template"
-    (∀ m, explicit = some m → (construct O w sp).2.obj.message = some m) ∧
+    let got := (construct O w sp).2.obj.message w.store
+    (∀ m, explicit = some m → got = some m) ∧
     (explicit = none → ∀ t, template = some t →
-        render O w.fmtId w.avail (initObj w sp).fields t = .ok (((construct O w sp).2.obj.message).getD "") ∧
-        (construct O w sp).2.obj.message.isSome = true) ∧
-    (explicit = none → template = none → (construct O w sp).2.obj.message = defaultFeedbackMessage) := by
+        render O w.fmtId w.avail (initObj w sp).fields t = .ok (got.getD "") ∧ got.isSome = true) ∧
+    (explicit = none → template = none → got = defaultFeedbackMessage) := by
   have h := triggered_message O w sp hd hmet
   revert h
-  generalize (construct O w sp).2.obj.message = got
+  generalize (construct O w sp).2.obj.message w.store = got
   unfold getMessage defaultMessage
   have hmsg : (initObj w sp).msg = sp.msg := rfl
-  have hm1 : (initObj w sp).message = (sp.message <|> classStr w.store sp.cls "message") := rfl
-  have hm2 : (initObj w sp).messageTemplate = (sp.messageTemplate <|> classTmpl w.store sp.cls "message_template") := rfl
-  rw [hmsg, hdef, hm1, hm2]
+  rw [hmsg, hdef, init_message, init_messageTemplate]
   dsimp only
   intro h
   refine ⟨?_, ?_, ?_⟩
@@ -410,8 +431,8 @@ theorem c20_message_derivation (O : Oracle) (w : World) (sp : FbSpec) (hd : sp.d
 /-- An untriggered feedback delivers its else-message (explicit > template > default `None`). -/
 theorem c20_untriggered_message (O : Oracle) (w : World) (sp : FbSpec) (hd : sp.delay = false)
     (hraise : (construct O w sp).2.raised = none) (hmet : (construct O w sp).2.obj.met = false) :
-    (construct O w sp).2.obj.message = (construct O w sp).2.obj.elseMessage ∧
-    getElseMessage O w.fmtId w.avail (initObj w sp) = .ok (construct O w sp).2.obj.elseMessage := by
+    (construct O w sp).2.obj.message w.store = (construct O w sp).2.obj.elseMessage w.store ∧
+    getElseMessage O w.fmtId w.avail w.store (initObj w sp) = .ok ((construct O w sp).2.obj.elseMessage w.store) := by
   revert hraise hmet
   unfold construct
   simp only [hd, Bool.false_eq_true, if_false]
@@ -431,6 +452,9 @@ theorem c20_untriggered_message (O : Oracle) (w : World) (sp : FbSpec) (hd : sp.
         · intro _ h; cases h
       | false =>
         simp only [Bool.false_eq_true, if_false]
+        have hcg := getElseMessage_congr O w.fmtId w.avail w.store (initObj w sp)
+          { initObj w sp with exc := none, met := false, justificationI := some j } rfl rfl rfl rfl
+        rw [hcg]
         split
         · intro h; cases h
         · rename_i em hem
@@ -502,7 +526,7 @@ theorem c20_format_dispatch_longest (spec n rest : String) (h : dispatch availab
 theorem c20_format_plain (O : Oracle) (F : String) (spec : String) (v : FVal) (acc : String)
     (h : ∀ f ∈ available, endsWith spec f = false) :
     renderField O F available v acc "" spec = O (.plain v acc spec) := by
-  unfold renderField dispatch
+  unfold renderField primOf dispatch
   have : available.find? (fun n => endsWith spec n) = none := by
     apply List.find?_eq_none.mpr
     intro f hf; simp [h f hf]
@@ -512,7 +536,7 @@ theorem c20_format_plain (O : Oracle) (F : String) (spec : String) (v : FVal) (a
 theorem c20_format_applies (O : Oracle) (F : String) (avail : List String) (spec n rest : String) (v : FVal) (acc : String)
     (h : dispatch avail spec = some (n, rest)) :
     renderField O F avail v acc "" spec = O (.fmt F n v acc rest) := by
-  unfold renderField
+  unfold renderField primOf
   simp [h]
 
 /-! ### override / restore -/
@@ -561,7 +585,7 @@ example : (construct exOracle exWorld { cls := "A", activate := false }).1.ignor
 example : (construct exOracle exWorld { cls := "A", cond := .raises keyError }).2.raised = some keyError := by decide
 def exSpec : FbSpec :=
   { cls := "A", messageTemplate := some [.lit "a", .field "x" "" "" "name"], kwargs := [("x", "t0")] }
-example : (construct exOracle exWorld exSpec).2.obj.message = some "av" := by decide
+example : (construct exOracle exWorld exSpec).2.obj.message exStore = some "av" := by decide
 example : (construct exOracle exWorld { cls := "A", messageTemplate := some [.field "nope" "" "" ""] }).2.raised
     = some keyError := by decide
 example : dispatch available "filename" = some ("filename", "") := by decide
